@@ -55,6 +55,67 @@ def oracle_program(n, sizes, obs):
     return None
 
 
+def general_oracle(d: ls.Driver):
+    """the property on an arbitrary program: per statement, the fetches after each cursor execute deliver the rows
+    0.. in order, filled unless exhausted, last-row-sent only then; unknown / closed ids and cursor-less statements -> ERR"""
+    known = set()
+    cur = {}          # sid -> [n, pos]
+    pending = None    # (sid, cursor) of an execute waiting for the application
+    fetch = None
+    def check_fetch():
+        nonlocal fetch
+        if fetch is None:
+            return None
+        sid, want, pk = fetch
+        fetch = None
+        rows = [a[1] for a in pk if isinstance(a, tuple) and a[0] == "PRow"]
+        term = [a for a in pk if isinstance(a, tuple) and a[0] in ("PEof", "POk")]
+        err = [a for a in pk if isinstance(a, tuple) and a[0] == "PErr"]
+        if sid not in known or sid not in cur:
+            return None if err and not rows else f"fetch on statement {sid} without cursor answered {pk[:3]}"
+        n, pos = cur[sid]
+        exp = list(range(pos, min(n, pos + want)))
+        if err:
+            return f"fetch({sid}, {want}) at position {pos} of {n} answered with ERR"
+        if rows != exp:
+            return f"fetch({sid}, {want}) at position {pos} of {n} returned rows {rows}, expected {exp}"
+        cur[sid][1] = pos + len(exp)
+        flag = term[-1][-1] if term else None
+        if flag is None or bool(flag & 128) != (len(exp) < want) or bool(flag & 64) == bool(flag & 128):
+            return f"fetch({sid}, {want}) at position {pos} of {n}: status flags {flag}"
+        return None
+    for ev, ob, cmd in zip(d.events, d.obs, d.cmds):
+        if cmd is not None:
+            w = check_fetch()
+            if w:
+                return w
+            pending = None
+            if cmd[0] == "prepare":
+                for o in ob[0]:
+                    if isinstance(o, tuple) and o[0] == "OWrite":
+                        for q, a, p in o[1]:
+                            if isinstance(a, tuple) and a[0] == "PPrepOk":
+                                known.add(a[1])
+            elif cmd[0] == "execute" and cmd[1] in known:
+                pending = (cmd[1], cmd[2])
+            elif cmd[0] == "reset":
+                cur.pop(cmd[1], None)
+            elif cmd[0] == "close":
+                cur.pop(cmd[1], None); known.discard(cmd[1])
+            elif cmd[0] == "fetch":
+                fetch = (cmd[1], cmd[2], [])
+        elif ev.startswith("EvApp (OSet") and pending is not None:
+            sid, cursor = pending
+            pending = None
+            if cursor and "IRaise" not in ev:
+                cur[sid] = [ev.count("IRow"), 0]
+        elif ev.startswith("EvApp") and pending is not None:
+            pending = None
+        if fetch is not None:
+            fetch[2].extend(a for o in ob[0] if isinstance(o, tuple) and o[0] == "OWrite" for q, a, _ in o[1])
+    return check_fetch()
+
+
 def run_program(rng, n, sizes, asynchronous, depeof):
     d = ls.Driver(rng)
     d.handshake(True, depeof); d.decide("ASuccess"); d.app_result("void")
@@ -118,7 +179,7 @@ def run(ctx: core.Ctx):
         for _ in range(rng.randint(5, 25)):
             sid = rng.choice([0, 1, 2, 2, 9])
             r = rng.random()
-            if r < 0.25:
+            if r < 0.3:
                 d.payload(("execute", sid, True))
                 if d.blocked() == "app":
                     n = rng.choice([0, 1, 3, 6])
@@ -140,6 +201,10 @@ def run(ctx: core.Ctx):
         c = ls.compare(d, m)
         if c:
             disagreements.append(c)
+        if witness is None:
+            why = general_oracle(d)
+            if why:
+                witness = dict(kind="cursor-program", problem=why, events=[e[:70] for e in d.events][:60])
         if mt is not None and witness is None:
             n, sz = mt
             obs = [(o[1], o[2], o[3], o[4]) for o in fetch_observations(d).get(0, []) if o[0] == "fetch"]
